@@ -123,9 +123,9 @@ def run(prop, tier, replay=None):
 PLAN = {
     # prop: tier: (MC configs, [(tlc profile, n, depth, overrides)], [(generator family, n)])
     "C08": {"quick": (["poll_quick", "reobs_quick", "fail_quick", "attest_quick"], [("poll", 10, 22, {})],
-                      [("poll", 12), ("reorg", 8), ("reobs", 20), ("apifail", 6), ("race", 8), ("lag", 10)]),
+                      [("poll", 12), ("reorg", 8), ("reobs", 20), ("apifail", 6), ("race", 8), ("lag", 10), ("xfer", 10)]),
             "thorough": (["poll_thorough", "reobs_thorough", "fail_thorough", "attest_thorough"], [("poll", 120, 26, {}), ("reobs", 60, 22, {"MaxReq": 2, "SharedTx": "TRUE"})],
-                         [("poll", 260), ("reorg", 120), ("reobs", 320), ("apifail", 80), ("race", 120), ("lag", 160)])},
+                         [("poll", 260), ("reorg", 120), ("reobs", 320), ("apifail", 80), ("race", 120), ("lag", 160), ("xfer", 160)])},
     "C09": {"quick": (["junk_quick", "live_quick"], [("live", 8, 20, {"MaxReq": 0, "MaxLook": 0, "Mainnets": "{FALSE}"})],
                       [("race", 16), ("junk", 22), ("hold", 8), ("order", 10), ("reobs", 6), ("apifail", 4)]),
             "thorough": (["junk_thorough", "live_thorough", "live_quick"], [("live", 100, 24, {"MaxReq": 0, "MaxLook": 0, "Mainnets": "{FALSE}"}),
